@@ -299,6 +299,9 @@ func check(id, tier string) int {
 		} else if err != nil {
 			code = -1
 		}
+		if cap, err := os.ReadFile(rl + ".c17.fd2"); err == nil && code == 2 {
+			eb.Write(cap) // a C17 replay worker's own fd 2 (the Go runtime's last words)
+		}
 		return code, ob.String() + eb.String()
 	}
 	for _, wr := range results {
@@ -432,6 +435,9 @@ func replayCmd(path string) int {
 		code = ee.ExitCode()
 	} else if err != nil {
 		return die2("%v", err)
+	}
+	if cap, err := os.ReadFile(rl + ".c17.fd2"); err == nil && code == 2 {
+		eb.Write(cap)
 	}
 	fmt.Print(ob.String())
 	switch {
